@@ -202,7 +202,7 @@ def validate_traces(trace_module, traces, *, cfg_text, timeout=900, batch=4000, 
         r = run_tlc(trace_module, cfg_text=cfg_text, workers=1, timeout=timeout, env=env)
         shutil.rmtree(d, ignore_errors=True)
         if "states" not in r or (r["errors"] and not all("POSTCONDITION" in e.upper() for e in r["errors"])):
-            raise TLCError(f"trace validation run of {trace_module} failed:\n" + r["out"][-4000:])
+            raise TLCError(f"trace validation run of {trace_module} failed:\n" + r["out"][-9000:])
         agg["states"] += r["states"]
         agg["distinct"] += r["distinct"]
         agg["runs"] += 1
